@@ -293,7 +293,10 @@ def handle (s : S) (i : Nat) (j : Json) : S × List Json :=
             match op with
             | "setfeeder" =>
               match fStr? j "feeder", fBool? j "active" with
-              | some a, some act => some (msgSetPriceFeeder s.model (sb a) act, refSetFeeder s.refFeeders (sb a) act)
+              -- the reference registry follows what governance and the account itself were ENTITLED to do: the self-service message
+              -- toggles an existing registration and cannot create one (whatever the implementation answered)
+              | some a, some act => some (msgSetPriceFeeder s.model (sb a) act,
+                  if (s.refFeeders.lookup (sb a)).isSome then refSetFeeder s.refFeeders (sb a) act else s.refFeeders)
               | _, _ => none
             | "delfeeder" =>
               match fStr? j "feeder" with
